@@ -1,6 +1,7 @@
 import Lean.Data.Json
 import NGF.Model.RefGrant
 import NGF.Model.RefGrantJudge
+import NGF.Model.PipelineRefsTie
 import NGF.Model.Proto
 /-
 Driver entry for C06.  Every input line is one JSON object `{"k":mode,"id":..,"in":{…},"obs":{…}}` as
@@ -8,6 +9,8 @@ written by harness/c06 ("obs" = what the REAL code produced).
   `model` : recompute the modelled part of "obs" from "in" (k=res, val) or from "in" + the real graph
             summary (k=e2e: verdict per backendRef / listener, backend groups), print it as JSON
   `judge` : evaluate the property on "in" and the real "obs" (k=e2e): `ok` | `skip <why>` | `fail <clause>; …`
+  `refs`  : (lines with "flat" and "matches", stream `refs` of the harness) build the `PipelineRefs.ScenarioR` of the case and
+            compare `resolveRef` with the real graph's BackendRefs and `Pipeline.gen (resolve c)` with the real http.conf
 Undecodable input answers `bad-op`.
 -/
 namespace NGF.RefGrant
@@ -289,13 +292,139 @@ def judgeLine (line : String) : String :=
     | .ok out => out
     | .error e => s!"bad-op {e}"
 
+
+/-! ### refs mode: Model/PipelineRefs against the real graph and the real http.conf -/
+
+end NGF.RefGrant
+
+namespace NGF.C06Flat
+open Lean (Json)
+open NGF.RefGrant (reqStr reqNat reqInt reqBool reqArr)
+open NGF.Spec.GatewayAPI
+
+def strMap (j : Json) (k : String) : Except String (List (String × String)) := do
+  match j.getObjVal? k with
+  | .ok (.obj m) => m.toList.mapM fun (a, b) => do pure (a, ← b.getStr?)
+  | _ => pure []
+
+def strs (j : Json) (k : String) : Except String (List String) := do (← reqArr j k).mapM (·.getStr?)
+
+def dKV (j : Json) : Except String KV := do pure ⟨← reqStr j "type", ← reqStr j "name", ← reqStr j "value"⟩
+def dHeader (j : Json) : Except String Header := do pure ⟨← reqStr j "name", ← reqStr j "value"⟩
+
+def dMatch (j : Json) : Except String Match := do
+  pure { ptype := ← reqStr j "ptype", pvalue := ← reqStr j "pvalue", method := ← reqStr j "method",
+         headers := ← (← reqArr j "headers").mapM dKV, query := ← (← reqArr j "query").mapM dKV,
+         hasGm := ← reqBool j "hasGm", gmType := ← reqStr j "gmType", hasService := ← reqBool j "hasService",
+         service := ← reqStr j "service", hasGMethod := ← reqBool j "hasGMethod", gmethod := ← reqStr j "gmethod" }
+
+def dFilter (j : Json) : Except String Filter := do
+  pure { type := ← reqStr j "type", present := ← reqBool j "present", scheme := ← reqStr j "scheme", hostname := ← reqStr j "hostname",
+         hasPort := ← reqBool j "hasPort", port := ← reqNat j "port", code := ← reqNat j "code", pathType := ← reqStr j "pathType",
+         pathValue := ← reqStr j "pathValue", set := ← (← reqArr j "set").mapM dHeader, add := ← (← reqArr j "add").mapM dHeader,
+         remove := ← strs j "remove" }
+
+def dBackend (j : Json) : Except String Backend := do
+  pure { group := ← reqStr j "group", kind := ← reqStr j "kind", hasNs := ← reqBool j "hasNs", ns := ← reqStr j "ns", name := ← reqStr j "name",
+         hasPort := ← reqBool j "hasPort", port := (← reqInt j "port").toNat, weight := ← reqInt j "weight", nfilters := ← reqNat j "nfilters" }
+
+def dRule (j : Json) : Except String Rule := do
+  pure { matches_ := ← (← reqArr j "matches").mapM dMatch, filters := ← (← reqArr j "filters").mapM dFilter,
+         backends := ← (← reqArr j "backends").mapM dBackend }
+
+def dParent (j : Json) : Except String ParentRef := do
+  pure { group := ← reqStr j "group", kind := ← reqStr j "kind", hasNs := ← reqBool j "hasNs", ns := ← reqStr j "ns", name := ← reqStr j "name",
+         hasSection := ← reqBool j "hasSection", sectionName := ← reqStr j "section", hasPort := ← reqBool j "hasPort" }
+
+def dRoute (j : Json) : Except String Route := do
+  pure { kind := ← reqStr j "kind", ns := ← reqStr j "ns", name := ← reqStr j "name", age := ← reqInt j "age",
+         parents := ← (← reqArr j "parents").mapM dParent, hostnames := ← strs j "hostnames", rules := ← (← reqArr j "rules").mapM dRule }
+
+def dListener (j : Json) : Except String Listener := do
+  pure { name := ← reqStr j "name", port := (← reqInt j "port").toNat, proto := ← reqStr j "proto", hasHost := ← reqBool j "hasHost",
+         host := ← reqStr j "host", hasTls := ← reqBool j "hasTls", tlsMode := ← reqStr j "tlsMode", tlsOpts := ← reqNat j "tlsOpts",
+         certs := ← (← reqArr j "certs").mapM (fun c => do
+           pure ({ group := ← reqStr c "group", kind := ← reqStr c "kind", hasNs := ← reqBool c "hasNs", ns := ← reqStr c "ns", name := ← reqStr c "name" } : CertRef)),
+         nsFrom := ← reqStr j "from", hasSel := ← reqBool j "hasSel", selMatch := ← strMap j "selMatch", selExprs := ← reqNat j "selExprs",
+         hasKinds := ← reqBool j "hasKinds",
+         kinds := ← (← reqArr j "kinds").mapM (fun c => do pure (⟨← reqStr c "group", ← reqStr c "kind"⟩ : KindRef)) }
+
+/-- C02's flat scenario (harness/c02/flat.go), same decoding as Driver/C02 -/
+def dScenario (j : Json) : Except String Scenario := do
+  pure { cls := ← reqStr j "class", ctlr := ← reqStr j "ctlr",
+         protectedPorts := ← (← reqArr j "protected").mapM (·.getNat?),
+         gcs := ← (← reqArr j "gcs").mapM (fun c => do pure (⟨← reqStr c "name", ← reqStr c "ctlr", ← reqInt c "age", ← reqBool c "params"⟩ : GatewayClass)),
+         gws := ← (← reqArr j "gws").mapM (fun g => do
+           pure ({ ns := ← reqStr g "ns", name := ← reqStr g "name", cls := ← reqStr g "class", age := ← reqInt g "age",
+                   addresses := ← reqNat g "addresses", listeners := ← (← reqArr g "listeners").mapM dListener } : Gateway)),
+         nss := ← (← reqArr j "nss").mapM (fun n => do pure (⟨← reqStr n "name", ← strMap n "labels"⟩ : Namespace)),
+         routes := ← (← reqArr j "routes").mapM dRoute,
+         svcs := ← (← reqArr j "svcs").mapM (fun v => do
+           pure ({ ns := ← reqStr v "ns", name := ← reqStr v "name",
+                   ports := ← (← reqArr v "ports").mapM (fun p => do pure (⟨(← reqInt p "port").toNat, ← reqBool p "ready"⟩ : SvcPort)) } : Svc)),
+         grants := ← (← reqArr j "grants").mapM (fun g => do
+           pure ({ ns := ← reqStr g "ns",
+                   «from» := ← (← reqArr g "from").mapM (fun f => do pure (⟨← reqStr f "group", ← reqStr f "kind", ← reqStr f "ns"⟩ : GrantFrom)),
+                   to := ← (← reqArr g "to").mapM (fun t => do pure (⟨← reqStr t "group", ← reqStr t "kind", ← reqBool t "hasName", ← reqStr t "name"⟩ : GrantTo)) } : Grant)),
+         secrets := ← (← reqArr j "secrets").mapM (fun x => do pure (⟨← reqStr x "ns", ← reqStr x "name", ← reqBool x "ok"⟩ : Secret)) }
+
+def optS (j : Json) (k : String) : String := match j.getObjVal? k with | .ok (.str x) => x | _ => ""
+
+def dNjsMatch (j : Json) : Option NGF.NginxEval.Njs.Match :=
+  match j with
+  | .obj _ =>
+    let any := match j.getObjVal? "any" with | .ok (.bool b) => b | _ => false
+    let lst (k : String) : List (List Char) := match j.getObjVal? k with
+      | .ok (.arr a) => a.toList.filterMap fun x => match x with | .str y => some y.toList | _ => none
+      | _ => []
+    some { any := any, method := (optS j "method").toList, headers := lst "headers", params := lst "params",
+           redirectPath := (optS j "redirectPath").toList }
+  | _ => none
+
+def dMatches (text : String) : Except String (List (String × Option (List NGF.NginxEval.Njs.Match))) := do
+  match ← Json.parse text with
+  | .obj m => pure (m.toList.map fun (k, v) =>
+      match v with
+      | .arr a => (k, (a.toList.mapM dNjsMatch))
+      | _ => (k, none))
+  | _ => throw "matches.json is not an object"
+
+end NGF.C06Flat
+
+namespace NGF.RefGrant
+open Lean (Json)
+open NGF.Nginx (Dir)
+
+def refsLine (line : String) : String :=
+  match Json.parse line with
+  | .error _ => "bad-op"
+  | .ok j =>
+    let r : Except String Json := do
+      let flat ← NGF.C06Flat.dScenario (← j.getObjVal? "flat")
+      let o ← parseObjs (← j.getObjVal? "in")
+      let obsJ ← j.getObjVal? "obs"
+      let panic ← reqStr obsJ "panic"
+      if panic != "" then return Json.mkObj [("skip", "panic")]
+      let b ← parseObs obsJ
+      if !b.hasConf then return Json.mkObj [("skip", "no configuration")]
+      let cfg : NGF.NginxEval.Config := { http := b.http, stream := b.stream, matchTab := ← NGF.C06Flat.dMatches (← reqStr j "matches") }
+      let t := NGF.PipelineRefsTie.tie cfg flat o b
+      return Json.mkObj [("inFragment", t.inFragment), ("why", t.why), ("shapeOK", t.shapeOK),
+        ("refsCompared", t.refs.compared), ("refClasses", strsJson t.refs.classes), ("refsDiffs", strsJson t.refs.diffs),
+        ("absentRoutes", t.refs.absentRoutes), ("confEqual", t.confEqual), ("confDiff", t.confDiff),
+        ("targets", t.targets), ("invalidShares", t.invalidShares), ("refSvcs", strsJson t.refSvcs), ("namesOK", t.namesOK)]
+    match r with
+    | .ok out => out.compress
+    | .error e => s!"bad-op {e}"
+
 def driver (args : List String) : IO UInt32 := do
   let stdin ← IO.getStdin
   let stdout ← IO.getStdout
   match args with
   | ["model"] => NGF.Proto.forEachLine stdin fun l => stdout.putStrLn (modelLine l)
   | ["judge"] => NGF.Proto.forEachLine stdin fun l => stdout.putStrLn (judgeLine l)
-  | _ => IO.eprintln "usage: C06 model|judge"; return 2
+  | ["refs"] => NGF.Proto.forEachLine stdin fun l => stdout.putStrLn (refsLine l)
+  | _ => IO.eprintln "usage: C06 model|judge|refs"; return 2
   return 0
 
 end NGF.RefGrant
